@@ -3312,7 +3312,6 @@ func (f *FuncCFG) SameValue(a ast.Expr, apt Point, b ast.Expr, bpt Point) bool {
 	return true
 }
 
-
 // LocksHeld computes, on the graph with the helpers spliced in, the mutexes that are certainly held
 // before every node (a must analysis: intersection at joins). Lock paths are given in the frame of
 // the function itself (MapPath), so `t.mutex.Lock()` inside a spliced helper called on the receiver
